@@ -39,5 +39,14 @@ int main(int argc, char **argv) {
         R.write();
         vf::g_active_report = nullptr;
     }
+    if (o.want("mutex_callback_parties")) {
+        vf::report R("C08", "mutex_callback_parties", o);
+        vf::g_active_report = &R;
+        vf::team T(1, o, true);
+        scn::mutex_callback_parties(o, R, o.cases);
+        T.export_hits(R);
+        R.write();
+        vf::g_active_report = nullptr;
+    }
     return 0;
 }
